@@ -4,6 +4,7 @@
 def register(reg):
     register_init(reg)
     register_assemble(reg)
+    register_traverse(reg)
     C = reg.contract
 
     # ------------------------------------------------------------------ C06: sort_meta
@@ -177,3 +178,53 @@ def register_assemble(reg):
                         ]}},
       notes="filelist is what utils.filelist_total returns (its contract, C01/C08/C09: every regular file below the path exactly once, "
             "sorted); the hashing loop is verified through the iterator protocol of Hasher")
+
+
+def _assembler_setup(p, env):
+    """self.kws is the keyword dict TorrentAssembler.__init__ builds: exactly these four keys"""
+    from pyvc.values import HDict, VInt, VNone
+    obj = p.heap[env["self"].rid]
+    kws = HDict(over={"progress": VInt(0), "progress_bar": VNone(), "hybrid": obj.fields["hybrid"], "pad": obj.fields["pad_flag"]})
+    obj.fields["kws"] = p.alloc(kws)
+
+
+def register_traverse(reg):
+    C = reg.contract
+    TA = {"cls": "torrentfile.torrent.TorrentAssembler",
+          "fields": {"hybrid": "bool", "pad_flag": "bool", "files": "list", "pieces": "bytearray", "piece_layers": "dict",
+                     "piece_length": "int", "path": "str"}}
+    LEAF = "result['']"
+    C("torrentfile.torrent.TorrentAssembler._traverse",
+      props=["C02", "C03", "C10"],
+      params={"self": TA, "path": "str"},
+      setup=_assembler_setup,
+      ghost={"k": "bytes"},
+      requires=["fs_isfile(path)", "self.piece_length >= 16384 and is_pow2(self.piece_length)"],
+      returns="dict",
+      ensures=[
+          ("C02", "leaf_records_the_exact_length", f"('' in result) and {LEAF}['length'] == len(fs_data(path))"),
+          ("C02", "empty_file_carries_no_root", f"implies(len(fs_data(path)) == 0, not ('pieces root' in {LEAF}))"),
+          ("C02", "non_empty_file_carries_the_hashers_root",
+           f"implies(len(fs_data(path)) > 0, ('pieces root' in {LEAF}) and {LEAF}['pieces root'] == hasher.root)"),
+          ("C02", "piece_layers_entry_exactly_for_files_larger_than_a_piece",
+           "implies(len(fs_data(path)) > 0, (k in self.piece_layers) == ((k in old(self.piece_layers)) or "
+           "(len(fs_data(path)) > self.piece_length and k == hasher.root))) and "
+           "implies(len(fs_data(path)) == 0, (k in self.piece_layers) == (k in old(self.piece_layers)))"),
+          ("C02", "the_entry_holds_the_collected_layer_hashes",
+           "implies(len(fs_data(path)) > self.piece_length, self.piece_layers[hasher.root] == layers)"),
+          ("C03", "hybrid_lists_the_file_then_its_padding_entry",
+           "implies(self.hybrid, len(self.files) >= len(old(self.files)) + 1 and "
+           "self.files[len(old(self.files))]['length'] == len(fs_data(path)) and "
+           "self.files[len(old(self.files))]['path'] == relpath_components(path, self.path))"),
+          ("C03", "v2_only_leaves_the_v1_list_alone", "implies(not self.hybrid, self.files == old(self.files))"),
+      ],
+      raises={"BaseException": {}},
+      loops={0: {"protocol": True, "modifies": ["hasher", "layers", "self.pieces"],
+                 "capture": {"files_before": "self.files", "layers_before_loop": "self.piece_layers"},
+                 "invariant": [
+                     ("hasher_frame", "hasher.piece_length == self.piece_length and hasher.amount * 16384 == hasher.piece_length and "
+                                      "hasher.amount >= 1 and is_pow2(hasher.amount) and hasher.hybrid == self.hybrid"),
+                     ("nothing_else_touched", "self.files == files_before and self.piece_layers == layers_before_loop"),
+                 ]}},
+      notes="leaf case (path is a regular file), for every file size and piece length; the directory branch (sorted(os.listdir), "
+            "recursion) is decided by the bounded harness")
